@@ -178,7 +178,7 @@ Definition try_index (st : store) (ix : index) (p : lexpr) (input : lop) : optio
       match conds with
       | [] => None
       | _ => if existsb (fun c => existsb (String.eqb (fst c)) (indexed st)) conds
-             then Some (mkTbl [x] (map (fun i => [CNode i]) (retain_label st label (find_by_props st ix conds))))
+             then Some (mkT [x] (map (fun i => [CNode i]) (retain_label st label (find_by_props st ix conds))))
              else None
       end
   | _ => None
@@ -239,7 +239,7 @@ Definition range_bounds (op : cmpop) (v : val) : option (option val * option val
 Definition try_range (st : store) (use_zone : bool) (p : lexpr) (input : lop) : option tbl :=
   match input with
   | LScan x label =>
-      let mk ids := Some (mkTbl [x] (map (fun i => [CNode i]) (retain_label st label ids))) in
+      let mk ids := Some (mkT [x] (map (fun i => [CNode i]) (retain_label st label ids))) in
       match match extract_between p with
             | Some (y, k, lo, hi, li, hi_i) => if String.eqb y x then Some (k, Some lo, Some hi, li, hi_i) else None
             | None => None end with
@@ -261,73 +261,80 @@ Definition try_range (st : store) (use_zone : bool) (p : lexpr) (input : lop) : 
 
 (** * Factorized expand chains *)
 Record step := mkStep { s_from : string; s_dir : dir; s_type : option string; s_cols : list string }.
-(** a factorization level above the base: the (edge, target) entries with, for every entry, the index
-    of its parent entry in the level below (offsets) *)
-Definition level := list (nat * (Z * Z)).     (* parent index, (target, edge) *)
-(** one level from the list of source node ids of the level below; [ci]: the first level compares
-    the edge type ignoring ASCII case (FactorizedExpandOperator::get_neighbors), deeper levels
-    compare exactly (FactorizedExpandChain::expand_deepest_level) *)
-Definition next_level (st : store) (ci : bool) (d : dir) (ty : option string) (srcs : list Z) : level :=
-  flat_map (fun is => map (fun te => (fst is, te)) (neighbors st ci (snd is) d ty)) (number_from O srcs).
-(** the deepest level's "column 1" as node ids: for an expansion level the target column; for the
-    base level its second column, if it exists and holds node ids *)
-Definition base_col1 (rs : list row) : res (option (list Z)) :=
-  match rs with
-  | [] => Ok (Some [])
-  | r0 :: _ => match nth_error r0 1 with
-               | None => Ok None                      (* level.column(1) is None: nothing to expand *)
-               | Some _ => do ids <- mapM (fun r => do c <- of_opt (nth_error r 1); of_opt (cell_node_id c)) rs;
-                           Ok (Some ids)
-               end
+(** A factorized chunk as a forest: an entry carries the cells it contributes (a base row, or the
+    [edge; target] pair of an expansion) and, when a deeper level EXISTS, its entries there.
+    [kids = None] marks an entry of the deepest level; [Some []] is an entry without children in
+    an existing level (it yields no row).  (factorized_chunk.rs keeps the same thing as flat
+    per-level vectors with offsets.) *)
+Inductive ftree := FNode (cells : list cell) (kids : option (list ftree)).
+(** the node a deepest-level entry is expanded from: the first step reads the base row's column of
+    the step's from-variable; every later step reads "column 1 of the deepest level" — the target of
+    an expansion entry, or the base row's second column when no level was added so far.  [Ok None]:
+    that column does not exist (nothing to expand); [Err]: it does not hold node ids. *)
+Definition leaf_src (idx : nat) (cells : list cell) : res (option Z) :=
+  match nth_error cells idx with
+  | None => Ok None
+  | Some c => match cell_node_id c with Some z => Ok (Some z) | None => Err end
   end.
-(** FactorizedExpandChain: levels are only ADDED when the step produced at least one edge *)
-Fixpoint fact_levels (st : store) (base : list row) (first_src : list Z) (steps : list step)
-         (acc : list level) (is_first : bool) : res (list level) :=
+(** one expansion step applied to every entry of the deepest level; also counts the new entries.
+    [ci]: the first level compares the edge type ignoring ASCII case
+    (FactorizedExpandOperator::get_neighbors), deeper levels compare exactly
+    (FactorizedExpandChain::expand_deepest_level) *)
+Fixpoint grow (st : store) (ci : bool) (idx : nat) (d : dir) (ty : option string) (t : ftree) : res (ftree * nat) :=
+  match t with
+  | FNode c None =>
+      do s <- leaf_src idx c;
+      match s with
+      | None => Ok (t, O)
+      | Some n => let ks := map (fun te => FNode [CEdge (snd te); CNode (fst te)] None) (neighbors st ci n d ty) in
+                  Ok (FNode c (Some ks), List.length ks)
+      end
+  | FNode c (Some kids) =>
+      do r <- (fix go (l : list ftree) : res (list ftree * nat) :=
+                 match l with
+                 | [] => Ok ([], O)
+                 | k :: rest => do k' <- grow st ci idx d ty k; do r' <- go rest;
+                                Ok (fst k' :: fst r', (snd k' + snd r')%nat)
+                 end) kids;
+      Ok (FNode c (Some (fst r)), snd r)
+  end.
+Fixpoint grow_forest (st : store) (ci : bool) (idx : nat) (d : dir) (ty : option string) (f : list ftree) : res (list ftree * nat) :=
+  match f with
+  | [] => Ok ([], O)
+  | t :: rest => do t' <- grow st ci idx d ty t; do r' <- grow_forest st ci idx d ty rest;
+                 Ok (fst t' :: fst r', (snd t' + snd r')%nat)
+  end.
+(** FactorizedExpandChain::expand: a level is only ADDED when the step produced at least one edge;
+    otherwise the chunk stays as it was and the next step works on the same deepest level again *)
+Fixpoint fact_steps (st : store) (i0 : nat) (steps : list step) (is_first : bool) (f : list ftree) (added : nat)
+  : res (list ftree * nat) :=
   match steps with
-  | [] => Ok acc
+  | [] => Ok (f, added)
   | s :: rest =>
-      do srcs <- (if is_first then Ok (Some first_src)
-                  else match acc with
-                       | [] => base_col1 base
-                       | _ => Ok (Some (map (fun e => fst (snd e)) (last acc [])))
-                       end);
-      match srcs with
-      | None => fact_levels st base first_src rest acc false
-      | Some ids =>
-          let lv := next_level st is_first (s_dir s) (s_type s) ids in
-          match lv with
-          | [] => fact_levels st base first_src rest acc false
-          | _ => fact_levels st base first_src rest (acc ++ [lv]) false
-          end
+      do g <- grow_forest st is_first (if is_first then i0 else 1%nat) (s_dir s) (s_type s) f;
+      match snd g with
+      | O => fact_steps st i0 rest false f added
+      | _ => fact_steps st i0 rest false (fst g) (S added)
       end
   end.
-(** logical rows: every path base row -> entry of level 1 -> entry of level 2 ... through the levels
-    that exist *)
-Fixpoint paths_from (lvls : list level) (parent : nat) : list (list cell) :=
-  match lvls with
-  | [] => [[]]
-  | lv :: rest =>
-      flat_map (fun ie => if Nat.eqb (fst (snd ie)) parent
-                          then map (fun tail => [CEdge (snd (snd (snd ie))); CNode (fst (snd (snd ie)))] ++ tail)
-                                   (paths_from rest (fst ie))
-                          else [])
-               (number_from O lv)
+(** FactorizedChunk::flatten: one row per path from a base row down to the deepest level *)
+Fixpoint paths (t : ftree) : list row :=
+  match t with
+  | FNode c None => [c]
+  | FNode c (Some kids) => flat_map (fun k => map (app c) (paths k)) kids
   end.
-Definition fact_flatten (base : list row) (lvls : list level) : list row :=
-  flat_map (fun ib => map (fun tail => snd ib ++ tail) (paths_from lvls (fst ib))) (number_from O base).
 (** LazyFactorizedChainOperator: collect the base, run the steps, flatten.  An empty base gives no
-    chunk at all. *)
-Definition fact_chain (st : store) (base : tbl) (steps : list step) : res (list level * list row) :=
+    chunk at all.  Result: number of levels added, rows. *)
+Definition fact_chain (st : store) (base : tbl) (steps : list step) : res (nat * list row) :=
   match steps with
   | [] => Err
   | s0 :: _ =>
       do i0 <- of_opt (pos_first (s_from s0) (cols base));
       match rows base with
-      | [] => Ok ([], [])
+      | [] => Ok (O, [])
       | _ =>
-          do srcs <- mapM (fun r => do c <- of_opt (nth_error r i0); of_opt (cell_node_id c)) (rows base);
-          do lvls <- fact_levels st (rows base) srcs steps [] true;
-          Ok (lvls, fact_flatten (rows base) lvls)
+          do fa <- fact_steps st i0 steps true (map (fun r => FNode r None) (rows base)) O;
+          Ok (snd fa, flat_map paths (fst fa))
       end
   end.
 Definition chain_cols (base : tbl) (steps : list step) : list string := cols base ++ flat_map s_cols steps.
@@ -335,13 +342,13 @@ Definition chain_cols (base : tbl) (steps : list step) : list string := cols bas
 (** plan_factorized_aggregate / FactorizedAggregate::{Count, CountColumn(1)}: only COUNT over a
     variable or count-star is modelled; both count logical rows — CountColumn only when the deepest
     level has a column 1 *)
-Definition fact_count (base : tbl) (lvls : list level) (flat : list row) (star : bool) : Z :=
+Definition fact_count (base : tbl) (added : nat) (flat : list row) (star : bool) : Z :=
   match rows base with
   | [] => 0
   | r0 :: _ =>
       if star then Z.of_nat (List.length flat)
-      else match lvls with
-           | [] => match nth_error r0 1 with Some _ => Z.of_nat (List.length flat) | None => 0 end
+      else match added with
+           | O => match nth_error r0 1 with Some _ => Z.of_nat (List.length flat) | None => 0 end
            | _ => Z.of_nat (List.length flat)
            end
   end.
@@ -353,10 +360,46 @@ Definition simple_count (a : aggx) : option bool :=      (* Some star? *)
   end.
 
 (** * The planner *)
+(** the columns of a plan as the planner computes them WITHOUT executing anything (planning errors
+    only): what plan_filter needs when the zone map lets it answer with an EmptyOperator *)
+Fixpoint plan_cols (p : lop) : res (list string) :=
+  match p with
+  | LScan x _ => Ok [x]
+  | LExpand from to ev _ _ _ _ input =>
+      do cs <- plan_cols input; do _ <- of_opt (pos_first from cs); Ok (cs ++ [edge_col ev; to])
+  | LFilter _ input => plan_cols input
+  | LReturn items _ input =>
+      do cs <- plan_cols input;
+      do _ <- mapM (fun it => match fst it with
+                              | EVar x | EProp x _ => of_opt (pos_last x cs)
+                              | ELit _ => Ok O
+                              | _ => if forallb (fun it => is_var (fst it)) items then Ok O else Err end) items;
+      Ok (map item_name items)
+  | LProject items input =>
+      do cs <- plan_cols input;
+      do _ <- mapM (fun it => match fst it with EVar x | EProp x _ => of_opt (pos_last x cs) | _ => Ok O end) items;
+      Ok (map item_name items)
+  | LSort keys input =>
+      do cs <- plan_cols input;
+      let pcs := prop_cols cs (map fst keys) in
+      do _ <- mapM (fun pc => of_opt (pos_last (fst (fst pc)) cs)) pcs;
+      let cs1 := cs ++ map snd pcs in
+      do _ <- mapM (fun k => key_col cs1 (fst k)) keys;
+      Ok cs1
+  | LSkip _ input | LLimit _ input | LDistinct input => plan_cols input
+  | LAggregate gb aggs input =>
+      do cs <- plan_cols input;
+      let es := gb ++ flat_map (fun a => match ag_arg a with Some e => [e] | None => [] end) aggs in
+      let pcs := prop_cols cs es in
+      do _ <- mapM (fun pc => of_opt (pos_last (fst (fst pc)) cs)) pcs;
+      let cs1 := cs ++ map snd pcs in
+      do _ <- mapM (key_col cs1) es;
+      Ok (map expr_name gb ++ map agg_name aggs)
+  end.
 Record chain := mkChain { ch_base : res tbl; ch_steps : list step }.
 Fixpoint runc (o : opts) (st : store) (p : lop) : res tbl * option chain :=
   match p with
-  | LScan x label => (Ok (mkTbl [x] (scan_rows st label)), None)
+  | LScan x label => (Ok (mkT [x] (scan_rows st label)), None)
   | LExpand from to ev d ty minh maxh input =>
       let '(rin, cin) := runc o st input in
       if is_single_hop minh maxh then
@@ -368,23 +411,23 @@ Fixpoint runc (o : opts) (st : store) (p : lop) : res tbl * option chain :=
         let flat := do t <- rin;
                     do _ <- of_opt (pos_first from (cols t));
                     do rs <- expand_rows st true (cols t) from d ty (rows t);
-                    Ok (mkTbl (cols t ++ [edge_col ev; to]) rs) in
+                    Ok (mkT (cols t ++ [edge_col ev; to]) rs) in
         let r := if o_fact o && Nat.leb 2 (List.length (ch_steps ch))
                  then do b <- ch_base ch;
                       do lr <- fact_chain st b (ch_steps ch);
-                      Ok (mkTbl (chain_cols b (ch_steps ch)) (snd lr))
+                      Ok (mkT (chain_cols b (ch_steps ch)) (snd lr))
                  else flat in
         (r, Some ch)
       else
         (do t <- rin;
          do _ <- of_opt (pos_first from (cols t));
          do rs <- vle_rows st true (cols t) from d ty minh maxh (rows t);
-         Ok (mkTbl (cols t ++ [edge_col ev; to]) rs), None)
+         Ok (mkT (cols t ++ [edge_col ev; to]) rs), None)
   | LFilter e input =>
       let '(rin, _) := runc o st input in
-      let generic := do t <- rin; Ok (mkTbl (cols t) (filter (fun r => passes_row st (cols t) r e) (rows t))) in
+      let generic := do t <- rin; Ok (filter_tbl (fun r => passes_row st (cols t) r e) t) in
       (if o_zone o && match zone_check st e with Some false => true | _ => false end
-       then do t <- rin; Ok (mkTbl (cols t) [])
+       then do cs <- plan_cols input; Ok (mkT cs [])
        else match (if o_index o then try_index st (idx_of st) e input else None) with
             | Some t => Ok t
             | None => match (if o_range o then try_range st (o_zone o) e input else None) with
@@ -398,10 +441,10 @@ Fixpoint runc (o : opts) (st : store) (p : lop) : res tbl * option chain :=
       (do t <- fst (runc o st input);
        do t1 <- add_prop_cols st t (map fst keys);
        do ks <- mapM (fun k => do c <- key_col (cols t1) (fst k); Ok (c, snd k)) keys;
-       Ok (mkTbl (cols t1) (map (map to_gen) (sort_rows ks (rows t1)))), None)
-  | LSkip n input => (do t <- fst (runc o st input); Ok (mkTbl (cols t) (skip_rows n (rows t))), None)
-  | LLimit n input => (do t <- fst (runc o st input); Ok (mkTbl (cols t) (limit_rows n (rows t))), None)
-  | LDistinct input => (do t <- fst (runc o st input); Ok (mkTbl (cols t) (distinct_rows (rows t))), None)
+       Ok (mkT (cols t1) (map (map to_gen) (sort_rows ks (rows t1)))), None)
+  | LSkip n input => (do t <- fst (runc o st input); Ok (skip_tbl n t), None)
+  | LLimit n input => (do t <- fst (runc o st input); Ok (limit_tbl n t), None)
+  | LDistinct input => (do t <- fst (runc o st input); Ok (mkT (cols t) (distinct_rows (rows t))), None)
   | LAggregate gb aggs input =>
       let '(rin, cin) := runc o st input in
       let generic := do t <- rin; aggregate_tbl st gb aggs t in
@@ -410,7 +453,7 @@ Fixpoint runc (o : opts) (st : store) (p : lop) : res tbl * option chain :=
            if o_fact o && Nat.leb 2 (List.length (ch_steps ch)) && forallb (fun a => match simple_count a with Some _ => true | None => false end) aggs
            then do b <- ch_base ch;
                 do lr <- fact_chain st b (ch_steps ch);
-                Ok (mkTbl (map agg_name aggs)
+                Ok (mkT (map agg_name aggs)
                           [map (fun a => CVal (VInt (fact_count b (fst lr) (snd lr)
                                                        (match simple_count a with Some s => s | None => true end)))) aggs])
            else generic
